@@ -156,11 +156,16 @@ class Tap:
         self._watch = {}
         if lines:
             src, start = inspect.getsourcelines(source_func(func) if not isinstance(func, types.FunctionType) else func)
-            for frag, names in lines.items():
-                hits = [i for i, ln in enumerate(src) if frag in ln]
-                if len(hits) != 1:
-                    raise ValueError(f"fragment {frag!r} found {len(hits)}x in {func.__name__}")
-                self._watch[start + hits[0]] = (frag, names)
+            for frags, names in lines.items():
+                # a key may be a tuple of alternative fragments: the first one found exactly once is used
+                alts = frags if isinstance(frags, tuple) else (frags,)
+                for frag in alts:
+                    hits = [i for i, ln in enumerate(src) if frag in ln]
+                    if len(hits) == 1:
+                        self._watch[start + hits[0]] = (frag, names)
+                        break
+                else:
+                    raise ValueError(f"none of the fragments {alts!r} found exactly once in {func.__name__}")
         self._prev_line = {}
 
     def _local(self, frame, event, arg):
